@@ -121,7 +121,7 @@ fn fmt_stub(_args: std::fmt::Arguments<'_>) -> String {
 // ---- escapes inside quoted atoms (6.4.2.1) ----
 #[kani::proof]
 #[kani::unwind(8)]
-#[kani::stub(alloc::fmt::format, fmt_stub)]
+#[kani::stub(std::fmt::format, fmt_stub)]
 fn c55_char_to_string_quoted_ascii() {
     let c: u8 = kani::any();
     kani::assume(c < 128);
@@ -154,7 +154,7 @@ fn c55_char_to_string_quoted_ascii() {
 // unquoted context: every printable ASCII char is passed through unchanged
 #[kani::proof]
 #[kani::unwind(8)]
-#[kani::stub(alloc::fmt::format, fmt_stub)]
+#[kani::stub(std::fmt::format, fmt_stub)]
 fn c55_char_to_string_unquoted_ascii() {
     let c: u8 = kani::any();
     kani::assume(c >= 32 && c < 127);
